@@ -67,8 +67,8 @@ PROPS["C12"] = dict(
 )
 
 PROPS["C05"] = dict(
-    lean_modules=["QuaiVerif.Props.C05"],
-    areas=[dict(name="evm", n_quick=2500, n_thorough=40000, seeds_thorough=3, n_search=8000),
+    lean_modules=["QuaiVerif.Props.C05", "QuaiVerif.Props.C05b"],
+    areas=[dict(name="evm", spec_ops=("wrapped",), n_quick=2500, n_thorough=40000, seeds_thorough=3, n_search=8000),
            dict(name="c07", n_quick=2, n_thorough=12, seeds_thorough=2, n_search=6, timeout=3000),
            dict(name="lockup", spec_ops=("claim",), n_quick=600, n_thorough=12000, seeds_thorough=2, n_search=2500, preamble=lockup_preamble)],
     facts=["etx_exits"],
@@ -80,7 +80,8 @@ PROPS["C05"] = dict(
                "explicit), and 'outbound set = sends of non-reverted frames in order' by mutual induction over frame trees; exit discipline of the three Go "
                "functions is regenerated from source and checked by decide; the model is run against the real interpreter on generated contracts.",
     level_note="Trusted: Lean kernel, extractor (exit/debit positions by go/ast), harness. Modelled not verified: the interpreter's opcode dispatch, gas metering, "
-               "memory; lockup-precompile claims and Qi unwrap are covered under C13. Pre-fork regime wraps uint256 (the _partial theorem).",
+               "memory; coinbase-lockup claims are covered under C13; Qi unwrap / deposit claims of the lockup contract have their own model (Wrapped, theorems in Props/C05b; "
+               "ETX-cache overflow inside an unwrap is not modelled). Pre-fork regime wraps uint256 (the _partial theorem).",
     assumptions=["the executing contract's own address is an internal Quai address (it exists in this zone's state, C16)"],
 )
 
@@ -269,6 +270,7 @@ PROPS["C06"] = dict(
     lean_modules=["QuaiVerif.Props.C06", "QuaiVerif.Props.C06b"],
     areas=[dict(name="c06", n_quick=6, n_thorough=40, seeds_thorough=3, n_search=12, timeout=3000),
            dict(name="snap", n_quick=400, n_thorough=20000, seeds_thorough=3, n_search=3000),
+           dict(name="state", n_quick=2000, n_thorough=20000, seeds_thorough=2, n_search=2500, preamble=state_preamble),
            dict(name="lockup", spec_ops=("claim",), n_quick=600, n_thorough=12000, seeds_thorough=2, n_search=2500, preamble=lockup_preamble)],
     rule="a case is one 40-block history of a real zone node (core.Slice, blake3pow, blocks assembled by its own worker and mined by the harness): Quai "
          "transfers, contract deployment and storage writes, Qi spends (1-3 inputs, musig), Quai->Qi conversions, lockup-contract claims incl. reverting "
@@ -422,3 +424,70 @@ PROPS["C19"] = dict(
     assumptions=["accounts are independent in the pool (per-account lists; the global limits are out of the model)",
                  "a transaction's validity against the state is nonce >= state nonce and cost <= balance (gas limit and base-fee floor are kept satisfied by the generator)"],
 )
+
+
+# ---- additions of rounds 4-7 to the case rules (appended here so that the long rule texts above stay as they were written) ----
+EXTRA_RULES = {
+    "C01": "Further: change outputs go back to the wallet's own keys and later transactions of the block prefer outputs created earlier in it; every "
+           "disk-backed case is shadowed by an in-memory engine fed the same UTXOs and transactions (verdict and fee must agree); amounts are valued with a "
+           "start-up copy of the denomination table. [c10, shared with C10] after every reorganisation the value of the unspent outputs equals that of a node "
+           "that only followed the winning branch.",
+    "C02": "Further: whole transactions with gas prices up to 2^256-1 (op gasbuy against the Gas model: verdict, payer balance, recipient gain); a contract "
+           "that self-destructs, is paid again and self-destructs again within one transaction; a creation transaction (constructor sends an ETX and ends in "
+           "any way, incl. code-store out of gas) followed by a transfer on the same EVM - each transaction must account for its own ETXs; value-tree cases "
+           "in which the last self-destruct pays an account destroyed earlier in the transaction, and the second transaction then pays that account.",
+    "C03": "Further: recipient none <-> zone zero address, last data byte, access-list storage keys among the payload mutations; recovery ids congruent to the "
+           "genuine one modulo 2^8 / 2^32 / 2^56 and beyond 64 bits; in the utxo area any signed part of a Qi transaction (addresses, denominations, each data "
+           "byte) is altered after signing.",
+    "C04": "Further: op commit - the commitment to an ETX list (1-300 entries, boundary sizes 126-131 / 254-259) against the Lean trie root of {rlp(i) -> entry}, "
+           "with single-entry replacement / removal at the boundary positions; queues of any zone. [c04h] every zone-order block has a competitor: the "
+           "pending header on the same parent sealed by a second miner (another coinbase, before the users act) and appended after the block the history "
+           "continues with; two runs of five zone-order blocks per case make manifests of three and more entries; after every block the manifest the zone "
+           "reports (Slice.GetManifest) for the block and for its parent must end with that block and be a chain of parents; the delivery oracles stay as "
+           "they were - nothing a competitor emitted may arrive, nothing of the accepted block may be lost.",
+    "C05": "Further: gas-limit words beyond 64 bits with a valid low part; creations ending in code-store out of gas (known finding); [lockup, shared] a "
+           "completed claim is not undone by a later reverting frame; every fourth case also runs one transaction in which an owner contract makes 2-5 "
+           "calls to the lockup contract about its wrapped Qi - unwraps below / at / above what is left (40%: two unwraps that each fit the starting balance "
+           "and together exceed it), claims of deposits present or not - op wrapped against the Wrapped model (status of every call, balance, deposit slots, "
+           "ETX values) and T3 balance + deposits + emitted value unchanged.",
+    "C06": "Further: [lockup, shared] the lockup ledger on leveldb / pebble / memorydb, a record restored by a revert is the committed one; [state, shared with "
+           "C12] both executions of a case start from one shared parent state-size object, as they do from a cached parent header: the object must be left "
+           "as it was and both runs must end with the same state size.",
+    "C07": "Further (T1): the argument lists of vm.AddNewLock / AddBalance in worker.go commitTransaction and state_processor.go Process, normalised, must be "
+           "the same list (fact Mirror). In the c07 area three senders regularly submit a transfer at 6x, a transfer at 5x and a creation "
+           "whose constructor reverts at 4x the base fee (the rest pays 3x); whenever a block lists a dearer transaction directly before a cheaper one of "
+           "another sender the two are exchanged, with transaction root and receipts (cumulative gas) recomputed honestly - preferring a pair whose cheaper "
+           "transaction failed - and the block must be rejected.",
+    "C08": "Further, once per run: a merge-mined share whose donor header carries a foreign mix digest on a chain built with the real KAWPOW engine (must be "
+           "classified Invalid); per case: two AuxPoW proofs that differ in one donor header field must not give the same signed template message (low version "
+           "bits exempt for the SHA chains only), and every prefix of the donor coinbase goes through ConvertToTemplate().VerifySignature() without a crash.",
+    "C09": "Further: 35 single-field deviations (numbers + 2^64, future / top-bit / maximal times, extra data, limits, foreign-zone coinbase / lockup contract "
+           "/ beneficiary); the two limit rules also on copies of a parent with any height and limit (zero or not).",
+    "C10": "Further: blocks nobody asks anything of (no user activity, zone order, Quai coinbase) on the abandoned branch, so that some of them only trim.",
+    "C11": "Further: the chain is extended until a block that trims has been crash-tested; every other history deploys and calls a contract whose receipt "
+           "carries a 110000-byte log (write batch above 100 KiB), such blocks are tested at every prefix; after every recovery the restarted node must also "
+           "accept the next block of the chain, built beforehand on the node that did not crash.",
+    "C12": "Further: transaction ends (Finalize) between frames - accounts deleted by an earlier transaction are preferred afterwards; [evm, shared] a "
+           "value-carrying call to a precompile that refuses its input leaves no trace; [lockup, shared] whole-ledger comparison around reverted claims.",
+    "C13": "Further: the lockup ledger lives on one of the three storage engines; unlock heights exactly on epoch boundaries; reward -> claim -> read and "
+           "reverted claim -> claim sequences on one tranche; per-transaction claim bookkeeping is reset at every reward (EVM.Reset).",
+    "C14": "Further: receipts in storage form (logs, topics, outbound ETXs; failed ones too) through proto and rawdb, pending-ETX roll-ups, termini, whole "
+           "blocks; post-fork headers with a donor proof of each of the four algorithms; input keys reused across cases and negated (same X, other Y).",
+    "C15": "Further: data-reading opcodes with any source offset (bytes delivered vs the zero-padded window); MCOPY enabled (block height past the opcode fork) "
+           "with one far end; empty ranges at far offsets for every opcode that copies out of memory; [c08, shared] truncated donor coinbases.",
+    "C16": "Further: op filter - Transactions.FilterToSub over a 3 x 3 hierarchy against keepForSub; [sign, shared] the sender of one transaction asked for by "
+           "signers of four locations in random order; [etxq, shared] ETXs popped in any zone are classified for that zone.",
+    "C17": "Further: compact (well-formed ranges; content compared by the following operations) once in about 400 operations, and the script put / put / "
+           "batch delete / write / reset / compact / get / has / iter.",
+    "C18": "Further: trieGC - blocks committed into one node store with Reference / Dereference / Cap / Commit and repeated roots; trieRange - range proofs of "
+           "contiguous runs, deviations, zero-element proofs at stored and absent keys.",
+    "C19": "Further, with every flood case: two local-account scenarios (NoLocals off; peer-delivered replacements, price-floor raises) and five pending-limit "
+           "scenarios (AccountSlots 1-3, GlobalSlots 2-8 or just enough, runs of consecutive transactions from 2-4 accounts, a block that advances one list, a "
+           "further run); directed replacements of queued transactions beyond a gap; reorganisations where the oldest abandoned transaction is unaffordable; "
+           "a 90 s / 60 s watchdog around every case.",
+    "C20": "Further: op vol - ComputeConversionAmountInQuai on headers whose miner difficulty differs from their difficulty; [c13chain] a refund-only account for "
+           "reverted Quai->Qi conversions carrying 0-40 bytes of data, refused Qi->Quai conversions addressed to the conversion-only account; oracles classify "
+           "ETXs by their type field, not with the code's predicates.",
+}
+for _k, _v in EXTRA_RULES.items():
+    PROPS[_k]["rule"] = PROPS[_k]["rule"].rstrip() + ". " + _v
